@@ -1,6 +1,6 @@
 (* C15 — diagnosis of the generated-table obligations: the offending entries by name (no proof involved). *)
 From Coq Require Import String List ZArith Bool.
-From V Require Import Model.C15_Config Model.C15_Valid Gen.ConfigSchemas Gen.ConfigValidators.
+From V Require Import Model.C15_Config Model.C15_Valid Model.C15_Custom Gen.ConfigSchemas Gen.ConfigValidators Gen.ConfigCustoms.
 Import ListNotations.
 Open Scope string_scope.
 
@@ -20,9 +20,16 @@ Definition diag_validators_source_is_model := Eval vm_compute in
 Print diag_validators_source_is_model.
 
 Definition diag_customs_pinned := Eval vm_compute in
-  flat_map (fun S => flat_map (fun '(id, h) => match assoc_get id expected_custom_hash with
-                     | Some e => if String.eqb e h then [] else [sapp "custom rule source changed: " (sapp id (sapp " now " h))]
-                     | None => [sapp "rule not followed by the translator and not transcribed: " (sapp id (sapp " hash " h))] end) (scustom_hashes S)) all_schemas.
+  flat_map (fun S => flat_map (fun '(id, h) =>
+      if custom_translated gen_custom_rules id then [] else
+      match cr_get id gen_custom_rules, cr_get id model_custom_rules with
+      | Some r, Some r' => [String.concat "" ["custom rule "; id; ": the source has `"; show_crule r; "`, the model `"; show_crule r'; "`"]]
+      | Some r, None => [String.concat "" ["custom rule "; id; ": translated from the source (`"; show_crule r; "`) but the model has no rule for it"]]
+      | None, _ =>
+          match assoc_get id expected_custom_hash with
+          | Some e => if String.eqb e h then [] else [sapp "custom rule source changed: " (sapp id (sapp " now " h))]
+          | None => (sapp "rule not followed by the translator and not transcribed: " (sapp id (sapp " hash " h))) :: gen_custom_notes end
+      end) (scustom_hashes S)) all_schemas.
 Print diag_customs_pinned.
 
 Definition size_sections := Eval vm_compute in length all_schemas.
@@ -31,3 +38,5 @@ Definition size_members := Eval vm_compute in length (flat_map sfields all_schem
 Print size_members.
 Definition size_validate_clauses := Eval vm_compute in length (flat_map snd gen_clause_table).
 Print size_validate_clauses.
+Definition size_custom_rules_translated := Eval vm_compute in length gen_custom_rules.
+Print size_custom_rules_translated.
